@@ -124,24 +124,25 @@ def c19_scenarios(ctx, abstract, tier):
     return scen, meta
 
 
+def rec_c19(s, a, r):
+    srec, sc = [], []
+    for k, st in enumerate(r["steps"]):
+        last = k == len(r["steps"]) - 1
+        act = a["action"] if last else "run"
+        cwdp = (["proj"] if a["cwd"] == "root" else ["proj", "sub", "deep"]) if last else ["proj"]
+        sc.append({"action": act, "kind": a["kind"], "proj": ["proj"], "cwd": cwdp})
+        srec.append(step_rec(st, lines=True))
+    return {"rel": "C19", "id": s["id"], "scen": sc, "steps": srec}
+
+
 def run_c19(ctx):
     m, abstract = mc_cli(ctx)
     scen, meta = c19_scenarios(ctx, abstract, ctx.tier)
     raw = drive(ctx, scen, "c19")
-    recs = []
-    for s, a, r in zip(scen, meta, raw):
-        srec = []
-        sc = []
-        for k, st in enumerate(r["steps"]):
-            last = k == len(r["steps"]) - 1
-            act = a["action"] if last else "run"
-            cwdp = (["proj"] if a["cwd"] == "root" else ["proj", "sub", "deep"]) if last else ["proj"]
-            sc.append({"action": act, "kind": a["kind"], "proj": ["proj"], "cwd": cwdp})
-            srec.append(step_rec(st, lines=True))
-        recs.append({"rel": "C19", "id": s["id"], "scen": sc, "steps": srec})
+    recs = [rec_c19(s, a, r) for s, a, r in zip(scen, meta, raw)]
     bad = judge_all(ctx, recs)
     st = selftest(ctx, [r for i, r in enumerate(recs) if i not in set(bad)], "C19")
-    report_bad(ctx, "C19", bad, recs, scen, lambda i: "flags=%s (dispatches to %s) kind=%s cwd=%s gitignore=%s: changed paths %s (exit %s)" % (
+    report_bad(ctx, "C19", bad, recs, scen, meta, lambda i: "flags=%s (dispatches to %s) kind=%s cwd=%s gitignore=%s: changed paths %s (exit %s)" % (
         sorted(meta[i]["flags"]), meta[i]["action"], meta[i]["kind"], meta[i]["cwd"], meta[i]["gitignore"], changed_paths(recs[i]["steps"][-1]), recs[i]["steps"][-1]["exit"]),
         lambda i: "%s/%s/%s" % (meta[i]["action"], meta[i]["kind"], meta[i]["cwd"]))
     nontriv = sum(1 for r in recs if changed_paths(r["steps"][-1]))
@@ -203,20 +204,22 @@ def c09_scenarios(tier, seed):
     return scen, meta
 
 
+def rec_c09(s, mt, r):
+    steps = []
+    for st in r["steps"]:
+        text = st["stdout"] + st["stderr"]
+        steps.append(step_rec(st, extra={"mentioned": [t["name"] for t in mt["tasks"] if t["name"] in text]}))
+    return {"rel": "C09", "id": s["id"], "scen": {"tasks": mt["tasks"]}, "steps": steps}
+
+
 def run_c09(ctx):
     m, _ = mc_cli(ctx)
     scen, meta = c09_scenarios(ctx.tier, ctx.seed)
     raw = drive(ctx, scen, "c09")
-    recs = []
-    for s, mt, r in zip(scen, meta, raw):
-        steps = []
-        for st in r["steps"]:
-            text = st["stdout"] + st["stderr"]
-            steps.append(step_rec(st, extra={"mentioned": [t["name"] for t in mt["tasks"] if t["name"] in text]}))
-        recs.append({"rel": "C09", "id": s["id"], "scen": {"tasks": mt["tasks"]}, "steps": steps})
+    recs = [rec_c09(s, mt, r) for s, mt, r in zip(scen, meta, raw)]
     bad = judge_all(ctx, recs)
     st = selftest(ctx, [r for i, r in enumerate(recs) if i not in set(bad)], "C09")
-    report_bad(ctx, "C09", bad, recs, scen, lambda i: "req=%s flags=%s tasks=%s: exit=%s effects=%s second-run effects=%s" % (
+    report_bad(ctx, "C09", bad, recs, scen, meta, lambda i: "req=%s flags=%s tasks=%s: exit=%s effects=%s second-run effects=%s" % (
         meta[i]["req"], meta[i]["flags"], [(t["name"], [c["fails"] for c in t["cmds"]]) for t in meta[i]["tasks"]], recs[i]["steps"][0]["exit"],
         recs[i]["steps"][0]["effects"], recs[i]["steps"][1]["effects"]), lambda i: "%s/%s" % (",".join(meta[i]["flags"]) or "plain", meta[i]["shape"]))
     # the history clause on the in-process explorer as well (Inv_C09b on the real state graph)
@@ -332,27 +335,29 @@ def c13_scenarios(tier, seed):
     return scen, meta
 
 
+def rec_c13(s, mt, r):
+    st = r["steps"][0]
+    cmds, ok = [], False
+    try:
+        doc = json.loads(st["stdout"])
+        for c in (doc[0].get("results") or []):
+            cmds.append({"cmd": c["cmd"], "stdout": c["stdout"]})
+        ok = len(doc) == 1
+    except Exception:
+        pass
+    sc = {"cwd": os.path.join(r["home"], "proj"), "vars": [{k: v[k] for k in ("name", "kind", "val", "args", "out", "fails")} for v in mt["vars"]],
+          "cmds": [{"pieces": c["pieces"], "envname": c["envname"]} for c in mt["cmds"]]}
+    return {"rel": "C13", "id": s["id"], "scen": sc, "steps": [step_rec(st)], "json_ok": ok, "cmds": cmds, "stderr": st["stderr"][-300:]}
+
+
 def run_c13(ctx):
     m, _ = mc_cli(ctx)
     scen, meta = c13_scenarios(ctx.tier, ctx.seed)
     raw = drive(ctx, scen, "c13")
-    recs = []
-    for s, mt, r in zip(scen, meta, raw):
-        st = r["steps"][0]
-        cmds, ok = [], False
-        try:
-            doc = json.loads(st["stdout"])
-            for c in (doc[0].get("results") or []):
-                cmds.append({"cmd": c["cmd"], "stdout": c["stdout"]})
-            ok = len(doc) == 1
-        except Exception:
-            pass
-        sc = {"cwd": os.path.join(r["home"], "proj"), "vars": [{k: v[k] for k in ("name", "kind", "val", "args", "out", "fails")} for v in mt["vars"]],
-              "cmds": [{"pieces": c["pieces"], "envname": c["envname"]} for c in mt["cmds"]]}
-        recs.append({"rel": "C13", "id": s["id"], "scen": sc, "steps": [step_rec(st)], "json_ok": ok, "cmds": cmds, "stderr": st["stderr"][-300:]})
+    recs = [rec_c13(s, mt, r) for s, mt, r in zip(scen, meta, raw)]
     bad = judge_all(ctx, recs)
     st = selftest(ctx, [r for i, r in enumerate(recs) if i not in set(bad)], "C13")
-    report_bad(ctx, "C13", bad, recs, scen, lambda i: "vars=%s: exit=%s observed cmds=%s %s" % (
+    report_bad(ctx, "C13", bad, recs, scen, meta, lambda i: "vars=%s: exit=%s observed cmds=%s %s" % (
         [(v["name"], v["kind"], v["val"] or v["args"] or v["cmd"]) for v in meta[i]["vars"]], recs[i]["steps"][0]["exit"], recs[i]["cmds"][:4], recs[i]["stderr"][-120:]),
         lambda i: "%s/%s" % ("+".join(sorted({v["kind"] for v in meta[i]["vars"]})), "+".join(sorted({"amb" if v["name"] in ("AMBV", "BOTHV") else ("dot" if v["name"] == "DOTV" else "fresh") for v in meta[i]["vars"]}))))
     nontriv = sum(1 for mt in meta if any(v["name"] != "FRESHV" for v in mt["vars"]))
@@ -450,18 +455,20 @@ def c12_scenarios(tier, seed):
     return scen, meta
 
 
+def rec_c12(s, mt, r):
+    st = r["steps"][-1]
+    return {"rel": "C12", "id": s["id"], "scen": {k: mt[k] for k in ("proj", "cwd", "hasClean", "designated", "designatedAlt", "degenerate", "cleanMarker")},
+            "steps": [step_rec(st)], "stderr": st["stderr"][-300:]}
+
+
 def run_c12(ctx):
     m, _ = mc_cli(ctx)
     scen, meta = c12_scenarios(ctx.tier, ctx.seed)
     raw = drive(ctx, scen, "c12")
-    recs = []
-    for s, mt, r in zip(scen, meta, raw):
-        st = r["steps"][-1]
-        recs.append({"rel": "C12", "id": s["id"], "scen": {k: mt[k] for k in ("proj", "cwd", "hasClean", "designated", "designatedAlt", "degenerate", "cleanMarker")},
-                     "steps": [step_rec(st)], "stderr": st["stderr"][-300:]})
+    recs = [rec_c12(s, mt, r) for s, mt, r in zip(scen, meta, raw)]
     bad = judge_all(ctx, recs)
     st = selftest(ctx, [r for i, r in enumerate(recs) if i not in set(bad)], "C12")
-    report_bad(ctx, "C12", bad, recs, scen, lambda i: "outputs=%s cwd=%s clean-task=%s: exit=%s removed/changed=%s %s" % (
+    report_bad(ctx, "C12", bad, recs, scen, meta, lambda i: "outputs=%s cwd=%s clean-task=%s: exit=%s removed/changed=%s %s" % (
         meta[i]["kinds"], "/".join(meta[i]["cwd"]), meta[i]["hasClean"], recs[i]["steps"][0]["exit"], changed_paths(recs[i]["steps"][0])[:12], recs[i]["stderr"][-160:]),
         lambda i: "%s/%s/%s" % ("+".join(sorted(set(meta[i]["kinds"]))), "nested" if len(meta[i]["cwd"]) > 1 else "root", "cleantask" if meta[i]["hasClean"] else "builtin"))
     nontriv = sum(1 for mt in meta if mt["designated"] or mt["degenerate"])
@@ -526,53 +533,55 @@ def c20_scenarios(tier, seed):
     return scen, meta
 
 
+def rec_c20(s, mt, r):
+    logp = os.path.join(os.path.dirname(r["home"]), "effects.log")
+    sc = {"tasks": [{"name": t["name"], "doc": t["doc"], "deps": t["deps"], "hasfile": t["hasfile"],
+                     "cmds": [{"text": c["text"].replace(LOG, logp), "out": c["out"], "err": c["err"], "marker": c["marker"]} for c in t["cmds"]]} for t in mt["tasks"]],
+          "vars": mt["vars"], "req": mt["req"], "closure": mt["closure"]}
+    steps, views = [], []
+    for mode, st in zip(mt["modes"], r["steps"]):
+        v = {"mode": mode, "json_ok": False, "doc": [], "rows": [], "sorted": True, "listing": False, "closure": mt["closure"]}
+        out = st["stdout"]
+        if mode == "json-noargs":
+            # spok --json without task names: the default task's run when one exists (otherwise unconstrained)
+            v["mode"] = "json" if mt["dclosure"] else "free"
+            v["closure"] = mt["dclosure"]
+            mode = v["mode"]
+        if mode == "json":
+            try:
+                doc = json.loads(out)
+                v["json_ok"] = isinstance(doc, list)
+                v["doc"] = [{"task": d["task"], "skipped": d["skipped"], "results": [{"cmd": c["cmd"], "stdout": c["stdout"], "stderr": c["stderr"], "status": c["status"]}
+                                                                                   for c in (d.get("results") or [])]} for d in doc]
+            except Exception:
+                v["json_ok"] = False
+        elif mode in ("show", "vars"):
+            lines = [l for l in out.split("\n") if l.strip()]
+            known = {t["name"] for t in mt["tasks"]} if mode == "show" else {x["name"] for x in mt["vars"]}
+            rows = []
+            for l in lines:
+                parts = l.split()
+                if not parts or parts[0] not in known:
+                    continue
+                if mode == "show":
+                    t = [t for t in mt["tasks"] if t["name"] == parts[0]]
+                    rows.append({"name": parts[0], "hasdoc": bool(t) and (t[0]["doc"] in l)})
+                else:
+                    rows.append({"name": parts[0], "value": l.strip()[len(parts[0]):].strip()})
+            v["rows"] = rows
+            v["sorted"] = [x["name"] for x in rows] == sorted(x["name"] for x in rows)
+        elif mode == "noargs":
+            v["listing"] = "Tasks defined in" in out
+        steps.append(step_rec(st))
+        views.append(v)
+    return {"rel": "C20", "id": s["id"], "scen": sc, "steps": steps, "views": views}
+
+
 def run_c20(ctx):
     m, _ = mc_cli(ctx)
     scen, meta = c20_scenarios(ctx.tier, ctx.seed)
     raw = drive(ctx, scen, "c20")
-    recs = []
-    for s, mt, r in zip(scen, meta, raw):
-        logp = os.path.join(os.path.dirname(r["home"]), "effects.log")
-        sc = {"tasks": [{"name": t["name"], "doc": t["doc"], "deps": t["deps"], "hasfile": t["hasfile"],
-                         "cmds": [{"text": c["text"].replace(LOG, logp), "out": c["out"], "err": c["err"], "marker": c["marker"]} for c in t["cmds"]]} for t in mt["tasks"]],
-              "vars": mt["vars"], "req": mt["req"], "closure": mt["closure"]}
-        steps, views = [], []
-        for mode, st in zip(mt["modes"], r["steps"]):
-            v = {"mode": mode, "json_ok": False, "doc": [], "rows": [], "sorted": True, "listing": False, "closure": mt["closure"]}
-            out = st["stdout"]
-            if mode == "json-noargs":
-                # spok --json without task names: the default task's run when one exists (otherwise unconstrained)
-                v["mode"] = "json" if mt["dclosure"] else "free"
-                v["closure"] = mt["dclosure"]
-                mode = v["mode"]
-            if mode == "json":
-                try:
-                    doc = json.loads(out)
-                    v["json_ok"] = isinstance(doc, list)
-                    v["doc"] = [{"task": d["task"], "skipped": d["skipped"], "results": [{"cmd": c["cmd"], "stdout": c["stdout"], "stderr": c["stderr"], "status": c["status"]}
-                                                                                       for c in (d.get("results") or [])]} for d in doc]
-                except Exception:
-                    v["json_ok"] = False
-            elif mode in ("show", "vars"):
-                lines = [l for l in out.split("\n") if l.strip()]
-                known = {t["name"] for t in mt["tasks"]} if mode == "show" else {x["name"] for x in mt["vars"]}
-                rows = []
-                for l in lines:
-                    parts = l.split()
-                    if not parts or parts[0] not in known:
-                        continue
-                    if mode == "show":
-                        t = [t for t in mt["tasks"] if t["name"] == parts[0]]
-                        rows.append({"name": parts[0], "hasdoc": bool(t) and (t[0]["doc"] in l)})
-                    else:
-                        rows.append({"name": parts[0], "value": l.strip()[len(parts[0]):].strip()})
-                v["rows"] = rows
-                v["sorted"] = [x["name"] for x in rows] == sorted(x["name"] for x in rows)
-            elif mode == "noargs":
-                v["listing"] = "Tasks defined in" in out
-            steps.append(step_rec(st))
-            views.append(v)
-        recs.append({"rel": "C20", "id": s["id"], "scen": sc, "steps": steps, "views": views})
+    recs = [rec_c20(s, mt, r) for s, mt, r in zip(scen, meta, raw)]
     bad = judge_all(ctx, recs, chunk=400)
     st = selftest(ctx, [r for i, r in enumerate(recs) if i not in set(bad)], "C20")
 
@@ -580,7 +589,7 @@ def run_c20(ctx):
         r = recs[i]
         return "req=%s tasks=%s: exits=%s json docs=%s show rows=%s" % (meta[i]["req"], [t["name"] for t in meta[i]["tasks"]], [s["exit"] for s in r["steps"]],
                                                                       [[(d["task"], d["skipped"], len(d["results"])) for d in v["doc"]] for v in r["views"][:2]], r["views"][3]["rows"])
-    report_bad(ctx, "C20", bad, recs, scen, desc, lambda i: "n%d" % len(meta[i]["tasks"]))
+    report_bad(ctx, "C20", bad, recs, scen, meta, desc, lambda i: "n%d" % len(meta[i]["tasks"]))
     nontriv = sum(1 for r in recs if any(d["skipped"] for d in r["views"][1]["doc"]))
     evidence(ctx, m, recs, nontriv, "random spokfiles (1-5 tasks, 0-4 commands printing distinct markers to stdout and stderr and to a side-effect log, 0-5 variables, with/without "
              "docstrings, with/without a task named default) x {--json first run, --json repeated run, --quiet, --show, --vars, no arguments} through the binary as nobody; "
@@ -621,49 +630,26 @@ def selftest(ctx, recs, rel):
     return True
 
 
-def report_bad(ctx, rel, bad, recs, scen, describe, shape):
+REC = {}
+
+
+def report_bad(ctx, rel, bad, recs, scen, meta, describe, shape):
     seen = set()
     for i in bad:
         sh = shape(i)
         if sh in seen:
             continue
         seen.add(sh)
-        # confirm: run that scenario again from scratch and re-judge
+        # confirm: run that scenario again from scratch, rebuild the record from the new observations and re-judge
         again = drive(ctx, [scen[i]], "confirm")[0]
-        rec2 = rebuild(ctx, rel, recs[i], again)
+        rec2 = REC[rel](scen[i], meta[i], again)
         if judge(ctx, [rec2], 96) != [0]:
             ctx.unreproduced = getattr(ctx, "unreproduced", 0) + 1
             continue
         vlib.report(ctx, "Conforms_%s:%s" % (rel, sh), "Conforms_%s fails: %s" % (rel, describe(i)),
-                    {"property": rel, "family": "cli", "scenario": scen[i], "record": slim_rec(recs[i])})
+                    {"property": rel, "family": "cli", "scenario": scen[i], "meta": meta[i], "observed": slim_rec(rec2)})
         if len(seen) >= 6:
             break
-
-
-def rebuild(ctx, rel, old, again):
-    """re-derive the TLC record of a re-executed scenario (same scenario metadata, new observations)"""
-    new = json.loads(json.dumps(old))
-    steps = again["steps"][-len(old["steps"]):]
-    for k, st in enumerate(steps):
-        keep = {x: old["steps"][k][x] for x in old["steps"][k] if x not in ("exit", "before", "after", "effects", "stdout")}
-        new["steps"][k] = step_rec(st, lines=True, extra=keep)
-    if rel == "C09":
-        for k, st in enumerate(steps):
-            text = st["stdout"] + st["stderr"]
-            new["steps"][k]["mentioned"] = [t["name"] for t in old["scen"]["tasks"] if t["name"] in text]
-    if rel == "C13":
-        cmds, ok = [], False
-        try:
-            doc = json.loads(steps[0]["stdout"])
-            cmds = [{"cmd": c["cmd"], "stdout": c["stdout"]} for c in (doc[0].get("results") or [])]
-            ok = len(doc) == 1
-        except Exception:
-            pass
-        new["cmds"], new["json_ok"] = cmds, ok
-        new["scen"]["cwd"] = os.path.join(again["home"], "proj")
-    if rel == "C20":
-        return old            # views depend on the sandbox path; the original record is kept (deterministic scenario)
-    return new
 
 
 def slim_rec(r):
@@ -691,8 +677,11 @@ def run(ctx):
 def replay(ctx, path):
     rp = json.load(open(path))
     again = drive(ctx, [rp["scenario"]], "replay")[0]
-    rec2 = rebuild(ctx, ctx.pid, rp["record"] if "before" in json.dumps(rp["record"])[:0] else rp["record"], again) if False else None
+    rec2 = REC[ctx.pid](rp["scenario"], rp["meta"], again)
     log("re-executed: exits=%s effects=%s" % ([s["exit"] for s in again["steps"]], [s["effects"] for s in again["steps"]]))
-    # re-judging needs the full record: regenerate it through the property's own pipeline restricted to this scenario
-    ctx.replay_scenario = rp["scenario"]
-    raise Machinery("replay of CLI scenarios: run `tools/check %s` (the scenario is regenerated deterministically from the seed); re-execution output is above" % ctx.pid)
+    if judge(ctx, [rec2], 95) == [0]:
+        print("VIOLATION property=%s replay=%s" % (ctx.pid, path), flush=True)
+        ctx.violations.append({"replay": path})
+
+
+REC.update({"C19": rec_c19, "C09": rec_c09, "C13": rec_c13, "C12": rec_c12, "C20": rec_c20})
